@@ -231,17 +231,60 @@ class Evaluator:
             return LIBC[fn](self.ev(e['a'][0]))
         if self.depth > 4:
             raise Undecidable('call depth')
-        if fn.split('::')[-1] == 'isanyof' and len(e.get('a', [])) == 2:
-            import q as _q
-            s_ = strip(_q.expand(self.f, e['a'][1]))
-            while s_.get('k') == 'cast':
-                s_ = strip(s_['e'])
-            if s_.get('k') == 'cond':
-                s_ = strip(s_['x']) if self.ev(s_['c']) else strip(s_['y'])
-            if s_.get('k') == 'str':
-                c = wrap(self.ev(e['a'][0]), 8, True)
-                return int(any(wrap(b, 8, True) == c for b in s_['b']))
-            raise Undecidable('isanyof with a non-literal set')
+        try:
+            return self.call_expr(e)
+        except Undecidable as u:
+            if e.get('obj') is not None or e.get('clsp'):
+                raise
+            r = self.call_interp(e)
+            if r is None:
+                raise u
+            return r
+
+    def call_interp(self, e):
+        """a free helper whose body is more than a decision tree (loops, pointer parameters into string literals): its body is
+        interpreted (scansim) on the evaluated arguments.  -> int, or None when the arguments / body are outside that fragment"""
+        import scansim
+        fn = e.get('fn') or ''
+        cands = [g for g in self.prog.fn(fn, e.get('sig')) if g.get('body')]
+        if not cands or len(cands[0]['params']) != len(e.get('a', [])):
+            return None
+        g = cands[0]
+        bufs, vals = {}, {}
+        import q as _q
+        for k_, (p, a) in enumerate(zip(g['params'], e['a'])):
+            try:
+                v = self.ev(a)
+            except Undecidable:
+                try:
+                    v = self.ev(_q.expand(self.f, a))
+                except Undecidable:
+                    return None
+            pt = T(g, p['t'])
+            if isinstance(v, StrVal):
+                bufs[('L', k_)] = [wrap(b, 8, True) for b in v.b] + [0]
+                vals[p['id']] = ('P', ('L', k_), 0)
+            elif isinstance(v, int) and not isinstance(v, bool) or isinstance(v, bool):
+                vals[p['id']] = scansim.wrap(int(v), pt) if pt.get('bits') or pt.get('bool') else int(v)
+            else:
+                return None
+        r = scansim.Run(self.prog, g, bufs, depth=self.depth + 1)
+        r.vars.update(vals)
+        try:
+            out = r.run()
+        except (scansim.Unsupported, scansim.OOB, TypeError, RecursionError):
+            return None
+        if not isinstance(out, int):
+            return None
+        rt = T(g, g.get('ret'))
+        if rt.get('bool'):
+            return int(bool(out))
+        if rt.get('bits'):
+            return wrap(out, rt['bits'], rt.get('sg', True))
+        return out
+
+    def call_expr(self, e):
+        fn = e.get('fn') or ''
         cands = [g for g in self.prog.fn(fn, e.get('sig')) if g.get('body')]
         if not cands:
             raise Undecidable('call of %s' % fn)
